@@ -265,6 +265,14 @@ func (m *Model) staticReach(f *ssa.Function, followGo bool) map[*ssa.Function]bo
 				}
 			case ssa.CallInstruction:
 				cc := in.Common()
+				if followGo {
+					// a call of a spawn helper starts its function argument in a goroutine
+					if sp := m.spawnAt(in); sp != nil {
+						for _, t := range sp.Targets {
+							walk(t)
+						}
+					}
+				}
 				if sc := cc.StaticCallee(); sc != nil {
 					walk(sc)
 				}
@@ -596,4 +604,114 @@ func (m *Model) spawnsStoreOp(in ssa.Instruction) bool {
 		}
 	}
 	return false
+}
+
+// WaitSite is a bounded wait for a duration: a blocking select with a time.After case, or a
+// call of a wait helper (a loop-free library function whose only blocking instruction is such a
+// select on one of its parameters). Dur is the duration value at the site (the argument for a helper).
+type WaitSite struct {
+	At   ssa.Instruction
+	Dur  ssa.Value
+	Done bool // the wait also ends on a context's Done channel
+}
+
+func (m *Model) waitSites(f *ssa.Function) []WaitSite {
+	var out []WaitSite
+	eachInstr(f, func(in ssa.Instruction) {
+		switch x := in.(type) {
+		case *ssa.Select:
+			if w, ok := m.selectWait(x); ok {
+				out = append(out, w)
+			}
+		case *ssa.Call:
+			h := x.Call.StaticCallee()
+			if h == nil || !m.isLib(h) || h == f || len(cfgLoops(h)) > 0 {
+				return
+			}
+			var ws []WaitSite
+			nBlocking := 0
+			eachInstr(h, func(y ssa.Instruction) {
+				if m.isBlockingInstr(y) {
+					nBlocking++
+				}
+				if sel, ok := y.(*ssa.Select); ok {
+					if w, ok := m.selectWait(sel); ok {
+						ws = append(ws, w)
+					}
+				}
+			})
+			if len(ws) != 1 || nBlocking != 1 {
+				return
+			}
+			p, ok := ws[0].Dur.(*ssa.Parameter)
+			if !ok {
+				return
+			}
+			for i, q := range h.Params {
+				if q == p && i < len(x.Call.Args) {
+					out = append(out, WaitSite{At: x, Dur: x.Call.Args[i], Done: ws[0].Done})
+				}
+			}
+		}
+	})
+	return out
+}
+
+func (m *Model) selectWait(sel *ssa.Select) (WaitSite, bool) {
+	if !sel.Blocking {
+		return WaitSite{}, false
+	}
+	w := WaitSite{At: sel}
+	for _, st := range sel.States {
+		if call, ok := isCallTo(st.Chan, "time.After"); ok {
+			w.Dur = call.Call.Args[0]
+		}
+		if s := m.Sym.Of(st.Chan); s.Op == "invoke" && strings.HasSuffix(s.Name, "Context.Done") {
+			w.Done = true
+		}
+	}
+	return w, w.Dur != nil
+}
+
+// mustBlock: every path from f's entry to a return passes a blocking instruction
+// (or a call of a library function that must block).
+func (m *Model) mustBlock(f *ssa.Function) bool {
+	if m.mustBlockMemo == nil {
+		m.mustBlockMemo = map[*ssa.Function]bool{}
+	}
+	if v, ok := m.mustBlockMemo[f]; ok {
+		return v
+	}
+	m.mustBlockMemo[f] = false // recursion: assume not
+	if f.Blocks == nil {
+		return false
+	}
+	blocked := map[*ssa.BasicBlock]bool{}
+	for _, b := range f.Blocks {
+		for _, in := range b.Instrs {
+			if m.isBlockingInstr(in) {
+				blocked[b] = true
+			}
+		}
+	}
+	res := true
+	seen := map[*ssa.BasicBlock]bool{}
+	var walk func(b *ssa.BasicBlock)
+	walk = func(b *ssa.BasicBlock) {
+		if seen[b] || blocked[b] {
+			return
+		}
+		seen[b] = true
+		if _, ok := b.Instrs[len(b.Instrs)-1].(*ssa.Return); ok {
+			res = false
+		}
+		for i, s := range b.Succs {
+			if !deadEdge(b, i) {
+				walk(s)
+			}
+		}
+	}
+	walk(f.Blocks[0])
+	m.mustBlockMemo[f] = res
+	return res
 }
